@@ -15,6 +15,10 @@ export VERIF_REPO="${VERIF_REPO:-/repo}"
 BIN="$ROOT/.bin"
 mkdir -p "$BIN" "$ROOT/evidence" "$ROOT/replays"
 cd "$ROOT/harness" || exit 4
+# keep the harness's go.sum a superset of the repository's (a new dependency of go-cvss must not break the build)
+if [ -f "$VERIF_REPO/go.sum" ] && ! sort -u go.sum "$VERIF_REPO/go.sum" | cmp -s - <(sort -u go.sum); then
+  sort -u go.sum "$VERIF_REPO/go.sum" -o go.sum
+fi
 if [ "$VERIF_REPO" != "/repo" ]; then
   export VERIF_EVIDENCE_DIR="$BIN/evidence-scratch"   # never overwrite /verif/evidence from a scratch tree
   # run against another tree (self-validation on scratch copies): private modfile
